@@ -105,6 +105,14 @@ static std::vector<Op> ops() {
                  CrossSection c(w.CS);
                  return std::to_string(c.NumVert());
                }});
+  // a derived expression that shares the lazy CrossSection's pending transform and paths
+  O.push_back({"CS.Translate.Area+Bounds", [](World& w) {
+                 CrossSection t = w.CS.Translate({100, 50});
+                 Rect r = t.Bounds();
+                 char b[160];
+                 snprintf(b, sizeof b, "%.17g [%.17g,%.17g]-[%.17g,%.17g]", t.Area(), r.min.x, r.min.y, r.max.x, r.max.y);
+                 return std::string(b);
+               }});
   O.push_back({"smooth.Refine(3)", [](World& w) { return hx(byteHash(w.smooth.Refine(3).GetMeshGL64(), false)); }});
   return O;
 }
@@ -142,7 +150,7 @@ int main(int argc, char** argv) {
                     idx("(R+X).NumTri"), idx("R.Translate.NumVert"), idx("R2.NumTri"), idx("R.WithContext.Status")});
   groups.push_back({idx("H2.NumTri"), idx("copy(H2).NumVert"), idx("leafT.GetMeshGL64")});
   groups.push_back({idx("R.WithContext.Status"), idx("ctx.Cancel"), idx("ctx.Progress")});
-  groups.push_back({idx("CS.Area"), idx("CS.ToPolygons"), idx("copy(CS).NumVert")});
+  groups.push_back({idx("CS.Area"), idx("CS.ToPolygons"), idx("copy(CS).NumVert"), idx("CS.Translate.Area+Bounds")});
   groups.push_back({idx("ReserveIDs(2)"), idx("(R+X).NumTri"), idx("smooth.Refine(3)")});
   struct TP {
     std::vector<std::vector<int>> threads;
